@@ -103,12 +103,15 @@ def coq_async_handle(c, mask):
 
 def model_vs_impl(tag, cases, obs, mask, broken, sync_every=1):
     """async_handle vs the async observation for every case; handle vs the sync observation for every
-    [sync_every]-th case (the sync tie is C01-C03's, with the same generator). -> (bad async idx, bad sync idx)"""
+    [sync_every]-th case (the sync tie is C01-C03's, with the same generator). In the quick tier (sync_every > 1) every
+    second case of the early-return block is compared between the two real handlers only, unless they differ.
+    -> (bad async idx, bad sync idx)"""
     ok, out = coq_make(['Model/ServerAsync.vo', 'Spec/Init.vo'])
     if not ok:
         broken.append({'kind': 'proof', 'name': 'build of Model/ServerAsync.vo failed', 'site': coq_error_site(out)})
         return [], []
-    idx = [i for i, c in enumerate(cases) if c['id'] in obs and 'sync' in obs[c['id']] and 'async' in obs[c['id']]]
+    idx = [i for i, c in enumerate(cases) if c['id'] in obs and 'sync' in obs[c['id']] and 'async' in obs[c['id']]
+           and not (sync_every > 1 and c.get('block') == 'early' and c.get('half') and view(c, obs[c['id']]['sync']) == view(c, obs[c['id']]['async']))]
     exprs = []; tags = []
     for n, i in enumerate(idx):
         c = cases[i]; k = 'Virtio' if c['tr'] == 'virtio' else 'FuseDev'
@@ -167,6 +170,49 @@ def config_cases(rng):
         add(S.make_case(rng, 0, q['bytes'], q['fs'], q, transport='fusedev', cap=4096, remap=(0, 0), minor=minor, vu=False), minor)
     return out
 
+OK_KIND = {1: ('entry', 128), 3: ('attr', 104), 4: ('attr', 104), 14: ('open', 16), 15: ('read', None), 16: ('count', 8),
+           20: ('unit', 0), 30: ('unit', 0), 35: ('create', 144), 43: ('unit', 0)}
+
+def early_return_cases(rng, transports=('fusedev', 'virtio')):
+    """deterministic block: for each of the ten async opcodes, every early-return path of the handler in argument order --
+    fixed struct absent / one byte short (with an honest and with a lying length field), length field below / above what is
+    there, name missing (lookup, create: see also gen_badname_cases), payload shorter than size (write), split impossible /
+    data larger than the reply area (read), reply one byte too large for the capacity and exactly fitting (every handler) --
+    on each transport, served by both real handlers (added after the seeded change C20c: async_create stopped answering
+    EINVAL for an unterminated name; only the random mutator produced such requests)."""
+    out = []
+    def req_of(q, body, hlen=None):
+        h = q['hdr']
+        return S.in_header(40 + len(body) if hlen is None else hlen, q['op'], h['unique'], h['nodeid'], h['uid'], h['gid'], h['pid']) + body
+    for op in ASYNC_OPS:
+        name, sname, tail, kinds = S.OPS[op]
+        okkind, replylen = OK_KIND[op]
+        for tr in transports:
+            q = S.gen_wf(rng, op)
+            fs_ok = S.gen_fs(rng, okkind, op, q['fields'])
+            body = q['bytes'][40:]
+            fixed = len(S.enc_struct(sname, q['fields'], S.COMPAT.get(sname))) if sname else 0
+            vs = [(b'', None), (body, 40 + fixed - 1 if fixed else 39), (body, 40 + len(body) + 8), (body, 0), (body, 39), (body[:fixed], None)]
+            if fixed: vs += [(body[:fixed - 1], None), (body[:fixed - 1], 40 + len(body)), (body[:fixed // 2], None)]
+            if tail == 'name': vs += [(body[:fixed] + q['name1'], None), (body[:fixed] + b'\0', None), (body + b'tail', None)]
+            if op == 16:
+                half = q['payload'][:len(q['payload']) // 2]
+                vs += [(body[:fixed] + half, None), (body[:fixed], 40 + len(body)), (body + b'extra', None)]
+                b0 = bytearray(body); struct.pack_into('<I', b0, 16, 0); vs.append((bytes(b0), None))
+            for v, hl in vs:
+                out.append(S.make_case(rng, 0, req_of(q, v, hl), fs_ok, None, transport=tr, cap=4096, remap=(0, 0), minor=33, vu=False))
+            # capacities around the reply
+            if op == 15:
+                data = bytes(rng.getrandbits(8) for _ in range(100))
+                for cap in (0, 15, 16, 17, 16 + 99, 16 + 100):
+                    for fs in (('read', data), ('err', 'os', 5)):
+                        out.append(S.make_case(rng, 0, q['bytes'], fs, q, transport=tr, cap=cap, remap=(0, 0), minor=33, vu=False))
+            else:
+                for cap in (15, 16, 16 + replylen - 1, 16 + replylen):
+                    for fs in (fs_ok, ('err', 'kind', 3)):
+                        out.append(S.make_case(rng, 0, q['bytes'], fs, q, transport=tr, cap=max(cap, 0), remap=(0, 0), minor=33, vu=False))
+    return out
+
 def gen(rng, n, start=0, targeted='full', witnesses=True, config_block=True):
     cases = S.gen_cases(rng, n, frac_malformed=0.35)
     # the async handlers get extra weight: as many cases again are theirs
@@ -197,7 +243,16 @@ def gen(rng, n, start=0, targeted='full', witnesses=True, config_block=True):
         for tr in ('fusedev', 'virtio'):
             extra.append(S.make_case(rng, 0, q['bytes'], ('err', 'os', rng.choice(S.ERRNOS)), q, transport=tr, cap=4096, remap=(0, 0)))
     cases += extra
-    if config_block: cases += config_cases(rng)
+    if config_block:
+        cases += config_cases(rng)
+        er = early_return_cases(rng)
+        for i, c in enumerate(er): c['block'] = 'early'; c['half'] = i % 2
+        cases += er
+        # malformed names of every opcode that carries strings: lookup / create (async handlers) on both transports, the
+        # fall-back opcodes alternating
+        bn = S.gen_badname_cases(rng, 0) + [c for c in S.gen_badname_cases(rng, 0, transports=('virtio', 'fusedev'))
+                                           if struct.unpack_from('<I', c['req'], 4)[0] in (1, 35)]
+        cases += bn
     for c in cases: c['fill'] = rng.randrange(256)
     if witnesses: cases += witness_cases()
     for i, c in enumerate(cases): c['id'] = start + i
@@ -256,7 +311,7 @@ def run_check(tier, seed):
     if not ok:
         broken.append({'kind': 'harness-build', 'log': out[-3000:]})
         return finish(ev, PROP, findings, broken)
-    n = 100 if tier == 'quick' else 3000
+    n = 60 if tier == 'quick' else 3000
     quick = tier == 'quick'
     rng = random.Random(seed)
     cases = gen(rng, n, targeted='some' if quick else 'full')
